@@ -30,8 +30,10 @@ func main() {
 	seedsFlag := fs.String("seeds", "", "campaign: exact history seeds (comma separated) instead of seed*1000+i")
 	blocksOverride := fs.Int("histblocks", 0, "campaign: number of blocks per history (overrides the profile)")
 	readers := fs.Int("readers", 0, "concurrent read-only query goroutines (C25)")
+	lightProj := fs.Bool("lightproj", false, "live projection without reflective reads of lock-protected fields (C25)")
 	raceBin := fs.String("racebin", "", "race-detector build of this harness (C25)")
 	fs.Parse(os.Args[2:])
+	LightProjection = *lightProj
 	switch mode {
 	case "trace":
 		sink, err := NewSink(*trace, *driver)
